@@ -226,6 +226,9 @@ var c15TripleTemplates = [][2]string{
 	{"", "\t\"p\"@[]\t/u<c>"},
 	{"/u<a>\t\"p\"@[]\t", ""},
 	{"", ""},
+	{" /u<a>\t\"p\"@[]\t", ""},
+	{"\t", "/u<a>\t\"p\"@[]\t/u<c> "},
+	{"  /u<a>\t\"p\"@[]", "\t/u<c>"},
 }
 
 // C15 (b): triple.Parse on valid triple text with a hole of up to N symbolic
